@@ -348,3 +348,28 @@ Proof.
       apply andb_true_iff. split; [now apply bad_site_nil_ok | now apply IH]. }
   rewrite E. reflexivity.
 Qed.
+
+(* ------------------------------------------------------------------ fitted state does not alias caller storage *)
+(* after ANY history of the object, an attribute outside the computed set holds no reference to a
+   caller-owned cell (arguments of any method, hyper-parameter objects) *)
+Theorem untainted_attr_not_caller :
+  forall p s0 s1 a l c,
+    closed_ok p = true -> init_ok p s0 -> run (ctx p ++ body p) s0 s1 ->
+    PS.mem a (ta (analyse p)) = false ->
+    ats s1 a = Some l -> nth_error (heap s1) l = Some c -> own c <> Caller.
+Proof.
+  intros p s0 s1 a l c Hcl Hinit Hrun Hmem Ha Hn Ho.
+  unfold closed_ok in Hcl. rewrite forallb_forall in Hcl.
+  assert (I1 : inv (analyse p) s1).
+  { eapply run_inv; [exact Hcl | apply init_inv; exact Hinit | exact Hrun]. }
+  destruct I1 as [_ Ia]. specialize (Ia a l c Ha Hn Ho).
+  apply mem_in in Ia. rewrite Ia in Hmem. discriminate Hmem.
+Qed.
+
+Lemma tainted_attrs_spec : forall p a, In a (tainted_attrs p) <-> PS.mem a (ta (analyse p)) = true.
+Proof.
+  intros p a. unfold tainted_attrs. rewrite PS.mem_spec. rewrite <- PS.elements_spec1.
+  rewrite SetoidList.InA_alt. split.
+  - intro H. exists a. split; [reflexivity | exact H].
+  - intros [b [E H]]. hnf in E. subst b. exact H.
+Qed.
